@@ -514,3 +514,7 @@ Definition check_trace (fuel ml : nat) (pre h : list op) (obs : list (res * list
 (* every call of the history against its cache-free meaning *)
 Definition check_free (fuel : nat) (h : list op) (obs : list res) : list bool :=
   map (fun p => res_eqb (build0 fuel (fst (fst p)) (snd (fst p))) (snd p)) (combine h obs).
+
+(* results only (large maxlen: the queue is not compared) *)
+Definition check_results (fuel ml : nat) (h : list op) (obs : list res) : list bool :=
+  map (fun p => res_eqb (fst (fst p)) (snd p)) (combine (trace fuel (cached ml) h empty) obs).
